@@ -45,7 +45,7 @@ def gen_headers(W, kinds=None, p_degenerate=0.25):
     deg_text = W.choice([":80", "[", "\"", "", ":8080", "[:80"]) if W.chance(0.5) else W.choice(DEGENERATE)
     forms = [W.draw(5) for _ in range(nh)]
     hforms = [W.draw(3) for _ in range(nh)]
-    protos = [W.choice(["https", "http"]) for _ in range(nh)]
+    protos = [W.choice(["https", "http", "s", "tps", "htt", "httpss"], p0=0.45) if W.chance(0.2) else W.choice(["https", "http"]) for _ in range(nh)]
     sep = W.choice([", ", ",", " , "])
     for kind in use:
         info = {"hops": nh, "degenerate": None, "sep": sep}
@@ -64,7 +64,8 @@ def gen_headers(W, kinds=None, p_degenerate=0.25):
             info["value"] = sep.join(vals)
             info["elems"] = vals
         elif kind == "x-forwarded-proto":
-            v = W.choice(["https", "http", "HTTPS", "ftp", "https, http", "", " https", "\"https\"", "ws", "http,"])
+            v = W.choice(["https", "http", "HTTPS", "ftp", "https, http", "", " https", "\"https\"", "ws", "http,",
+                          "s", "h", "htt", "tps", "phttps", "httpss", "httphttps", "\"ttp\""])  # (fragments / multiples of the two names)
             info["value"] = v
             info["elems"] = [v]
         elif kind == "x-forwarded-port":
